@@ -362,6 +362,17 @@ def no_other_state(run, model, rule="C12.no-other-state"):
                     if bt[0] == "call":
                         continue  # result of a call: per-call object (checked fresh by C05.identity for the resolver)
                     bad.append((st, "stores an item into %s at call time" % show(strip_sites(bt), 60)))
+        # ``setattr(obj, name, value)`` / ``object.__setattr__(obj, ...)`` at call time: an attribute store in disguise
+        for n in flow.cfg.nodes:
+            for call, cond, aw in calls_in(n):
+                fsrc = src_of(call.func)
+                if fsrc in ("setattr", "object.__setattr__", "delattr") and len(call.args) >= 2:
+                    bt = flow.term(call.args[0], n)
+                    if bt == ("param", "self") and fi.cls is not None:
+                        continue
+                    if meta.ownership(model, bt, summ) == "fresh":
+                        continue
+                    bad.append((n.stmt, "`%s` stores an attribute on %s at call time (an object that outlives the call): what one call leaves there decides for the next" % (src_of(call, 60), show(strip_sites(bt), 50))))
         for n, how, recv in meta.mutation_sites(model, fi):
             alts = recv[1] if recv[0] == "phi" else (recv,)
             for a in alts:
